@@ -339,6 +339,9 @@ func genPIT(r *vc.Rand) (ledgerstore.PITFilterWithVolumes, string) {
 }
 
 func runC04(cfg *vc.Config, rep *vc.Report) {
+	if cfg.Only < 0 {
+		runC04Address(cfg, rep, cfg.Count(1500, 30000))
+	}
 	ctx := context.Background()
 	db, rec := fakesql.Open()
 	stores := map[string]*ledgerstore.Store{"ledgera": ledgerstore.NewStoreForVerif(db, "bucket0", "ledgera"), "ledgerb": ledgerstore.NewStoreForVerif(db, "bucket0", "ledgerb")}
